@@ -61,7 +61,7 @@ LIT = {
 }
 
 
-def run_slices(ctx, sls, pid, on_mismatch=None, accept=None, timeout=1500, jobs=None, post=None):
+def run_slices(ctx, sls, pid, on_mismatch=None, accept=None, timeout=1500, jobs=None, post=None, guard_inputs=False):
     """TLC runs of all slices concurrently (each JVM has a fixed start-up cost), replay in order."""
     from concurrent.futures import ThreadPoolExecutor
 
@@ -71,7 +71,7 @@ def run_slices(ctx, sls, pid, on_mismatch=None, accept=None, timeout=1500, jobs=
         futs = [ex.submit(_tlc_phase, ctx.seed, sl, timeout, per) for sl in sls]
         for sl, fut in zip(sls, futs):
             pool, res = fut.result()
-            _replay_phase(ctx, sl, pid, pool, res, on_mismatch, accept, post)
+            _replay_phase(ctx, sl, pid, pool, res, on_mismatch, accept, post, guard_inputs)
 
 
 def run_slice(ctx, sl, pid, on_mismatch=None, accept=None, timeout=1500):
@@ -93,7 +93,7 @@ def _tlc_phase(seed, sl, timeout, workers):
     return pool, res
 
 
-def _replay_phase(ctx, sl, pid, pool, res, on_mismatch, accept, post=None):
+def _replay_phase(ctx, sl, pid, pool, res, on_mismatch, accept, post=None, guard_inputs=False):
     ctx.add_tlc(res)
     if res.outcome != "ok":
         tail = "\n".join(res.stdout.splitlines()[-30:])
@@ -102,6 +102,7 @@ def _replay_phase(ctx, sl, pid, pool, res, on_mismatch, accept, post=None):
     if not recs:
         raise MachineryError(f"slice {sl.name}: TLC produced no behaviours")
     w = replay.World(pool, sl.lits, sl.zeros, sl.idx, gdim=sl.gdim)
+    w.guard_inputs = guard_inputs
     stats = {}
     seen_ops = {}
     seen = set()
